@@ -516,13 +516,25 @@ theorem Aligned.lookup {Gs ts rs} (h : Aligned Gs ts rs) (key : Nat) (g : Geom) 
     · rw [if_neg hk] at hl ⊢
       exact ih hl
 
-structure LoaderOk (Gs : Nat → Nat → Option Geom) (prs : Nat → Option Nat) (ls : LoaderSt) : Prop where
+theorem lookupN_mem {rs : List (Nat × Nat)} {key c : Nat} (h : lookupN rs key = some c) : (key, c) ∈ rs := by
+  induction rs with
+  | nil => simp [lookupN] at h
+  | cons x xs ih =>
+    obtain ⟨a, b⟩ := x
+    unfold lookupN at h
+    by_cases hk : a = key
+    · rw [if_pos hk] at h; cases h; simp [hk]
+    · rw [if_neg hk] at h; exact List.mem_cons_of_mem _ (ih h)
+
+/-- `repaired`: with the repaired `open_bootloader_uri` every cache entry was read on the loader's CURRENT connection -/
+structure LoaderOk (repaired : Bool) (Gs : Nat → Nat → Option Geom) (prs : Nat → Option Nat) (ls : LoaderSt) : Prop where
   aligned : Aligned Gs ls.ld.targets ls.readFrom
   link : ∀ L, ls.ld.link = some L → ∃ c, ls.conn = some c ∧ LinkOk (Gs c) (prs c) L
+  fresh : repaired = true → ∀ e ∈ ls.readFrom, ∀ c, ls.conn = some c → e.2 = c
 
-structure WorldOk (Gs : Nat → Nat → Option Geom) (prs : Nat → Option Nat) (w : World) : Prop where
+structure WorldOk (repaired : Bool) (Gs : Nat → Nat → Option Geom) (prs : Nat → Option Nat) (w : World) : Prop where
   copters : ∀ c cop, w.copters[c]? = some cop → CopterOk (Gs c) (prs c) cop
-  loaders : ∀ ls ∈ w.loaders, LoaderOk Gs prs ls
+  loaders : ∀ ls ∈ w.loaders, LoaderOk repaired Gs prs ls
   wf : ∀ c t g, Gs c t = some g → g.addr = (t : Int) ∧ g.pageSize < 65536 ∧ g.bufferPages < 65536 ∧
     g.flashPages < 65536 ∧ g.startPage < 65536
 
@@ -532,7 +544,7 @@ theorem release_loaders (w : World) (k : Nat) : (w.release k).loaders = w.loader
   · split <;> rfl
   · rfl
 
-theorem release_ok {Gs prs w} (h : WorldOk Gs prs w) (k : Nat) : WorldOk Gs prs (w.release k) := by
+theorem release_ok {rp Gs prs w} (h : WorldOk rp Gs prs w) (k : Nat) : WorldOk rp Gs prs (w.release k) := by
   refine ⟨?_, by rw [release_loaders]; exact h.loaders, h.wf⟩
   unfold World.release
   cases hk : w.loaders[k]? with
@@ -562,28 +574,36 @@ theorem release_ok {Gs prs w} (h : WorldOk Gs prs w) (k : Nat) : WorldOk Gs prs 
         · rw [if_neg hcc] at hget
           exact h.copters _ _ hget
 
-theorem set_loader_ok {Gs prs} {w : World} (h : WorldOk Gs prs w) (k : Nat) (ls' : LoaderSt)
-    (hl : LoaderOk Gs prs ls') : WorldOk Gs prs { w with loaders := w.loaders.set k ls' } := by
+theorem set_loader_ok {rp Gs prs} {w : World} (h : WorldOk rp Gs prs w) (k : Nat) (ls' : LoaderSt)
+    (hl : LoaderOk rp Gs prs ls') : WorldOk rp Gs prs { w with loaders := w.loaders.set k ls' } := by
   refine ⟨h.copters, ?_, h.wf⟩
   intro ls hls
   rcases List.mem_or_eq_of_mem_set hls with h1 | h1
   · exact h.loaders ls h1
   · rw [h1]; exact hl
 
-theorem noteRead_ok {Gs prs} {ls : LoaderSt} (h : LoaderOk Gs prs ls) (ld' : Loader Copter)
+theorem noteRead_ok {rp Gs prs} {ls : LoaderSt} (h : LoaderOk rp Gs prs ls) (ld' : Loader Copter)
     (hlink : ∀ L, ld'.link = some L → ∃ c, ls.conn = some c ∧ LinkOk (Gs c) (prs c) L)
     (ht : ld'.targets = ls.ld.targets ∨
       ∃ tid g c, ls.conn = some c ∧ Gs c tid = some g ∧ ld'.targets = (tid, g) :: ls.ld.targets) :
-    LoaderOk Gs prs (noteRead ls ld') := by
+    LoaderOk rp Gs prs (noteRead ls ld') := by
   unfold noteRead
   rcases ht with e | ⟨tid, g, c, hc, hg, e⟩
-  · refine ⟨?_, hlink⟩
-    simp only [e, if_true]
-    exact h.aligned
-  · refine ⟨?_, hlink⟩
-    simp only [e, List.length_cons, List.head?_cons, hc]
-    rw [if_neg (by omega)]
-    exact Aligned.cons hg h.aligned
+  · refine ⟨?_, hlink, ?_⟩
+    · simp only [e, if_true]
+      exact h.aligned
+    · simp only [e, if_true]
+      exact h.fresh
+  · refine ⟨?_, hlink, ?_⟩
+    · simp only [e, List.length_cons, List.head?_cons, hc]
+      rw [if_neg (by omega)]
+      exact Aligned.cons hg h.aligned
+    · simp only [e, List.length_cons, List.head?_cons, hc]
+      rw [if_neg (by omega)]
+      intro hr x hx c' hc'
+      rcases List.mem_cons.mp hx with h1 | h1
+      · rw [h1]; simp only; cases hc'; rfl
+      · exact h.fresh hr x h1 c' (by rw [hc]; exact hc')
 
 
 /-- target ids in the operations are bytes (they are packed into one) -/
@@ -594,9 +614,9 @@ def HOp.TidOk : HOp → Prop
 
 theorem gen_stm32_byte : Gen.C12.targetSTM32 < 256 := by decide
 
-theorem update_step_ok {Gs prs} {w : World} (h : WorldOk Gs prs w) (fuel : Nat) (ls : LoaderSt)
-    (hls : LoaderOk Gs prs ls) (tid : Nat) (ht : tid < 256) :
-    LoaderOk Gs prs (noteRead ls (updateInfo copterPeer fuel ls.ld tid).1) := by
+theorem update_step_ok {rp Gs prs} {w : World} (h : WorldOk rp Gs prs w) (fuel : Nat) (ls : LoaderSt)
+    (hls : LoaderOk rp Gs prs ls) (tid : Nat) (ht : tid < 256) :
+    LoaderOk rp Gs prs (noteRead ls (updateInfo copterPeer fuel ls.ld tid).1) := by
   cases hL : ls.ld.link with
   | none =>
     have : (updateInfo copterPeer fuel ls.ld tid).1 = ls.ld := by simp [updateInfo, hL]
@@ -626,8 +646,8 @@ theorem request_fst (fuel : Nat) (ld : Loader Copter) (tid : Nat) :
     · simp only
       split <;> rfl
 
-theorem step_ok {Gs prs} {w : World} (h : WorldOk Gs prs w) (fuel : Nat) (op : HOp) (hop : op.TidOk) :
-    WorldOk Gs prs (w.step fuel op).1 := by
+theorem step_ok {rp Gs prs} {w : World} (h : WorldOk rp Gs prs w) (fuel : Nat) (op : HOp) (hop : op.TidOk) :
+    WorldOk rp Gs prs (w.step rp fuel op).1 := by
   cases op with
   | new =>
     refine ⟨h.copters, ?_, h.wf⟩
@@ -635,7 +655,7 @@ theorem step_ok {Gs prs} {w : World} (h : WorldOk Gs prs w) (fuel : Nat) (op : H
     simp only [World.step, List.mem_append, List.mem_singleton] at hls
     rcases hls with h1 | h1
     · exact h.loaders ls h1
-    · rw [h1]; exact ⟨Aligned.nil, by intro L hL; simp [Loader.new] at hL⟩
+    · rw [h1]; exact ⟨Aligned.nil, (by intro L hL; simp [Loader.new] at hL), (by intro _ e he; cases he)⟩
   | openLink k c =>
     simp only [World.step]
     split
@@ -648,12 +668,21 @@ theorem step_ok {Gs prs} {w : World} (h : WorldOk Gs prs w) (fuel : Nat) (op : H
           rw [release_loaders] at hk
           have hls := h.loaders ls (List.mem_of_getElem? hk)
           have hcop := h1.copters c cop hc
-          refine ⟨hls.aligned, ?_⟩
-          intro L hL
-          simp only [Loader.openLink, Option.some.injEq] at hL
-          subst hL
-          exact ⟨c, rfl, ⟨⟨hcop.geom, hcop.proto, hcop.wf, hcop.script, by intro p hp; cases hp⟩,
-            by intro p hp; cases hp⟩⟩
+          have hL0 : LinkOk (Gs c) (prs c) ({ st := { cop with lateQ := [] }, inbox := [], sent := [] } : Link Copter) :=
+            ⟨⟨hcop.geom, hcop.proto, hcop.wf, hcop.script, by intro p hp; cases hp⟩, by intro p hp; cases hp⟩
+          cases rp with
+          | true =>
+            refine ⟨Aligned.nil, ?_, (by intro _ e he; cases he)⟩
+            intro L hL
+            simp only [Loader.openLink, if_true, Option.some.injEq] at hL
+            subst hL
+            exact ⟨c, rfl, hL0⟩
+          | false =>
+            refine ⟨hls.aligned, ?_, (by intro hr; cases hr)⟩
+            intro L hL
+            simp only [Loader.openLinkKeep, Bool.false_eq_true, if_false, Option.some.injEq] at hL
+            subst hL
+            exact ⟨c, rfl, hL0⟩
         · exact h
     · exact h
   | closeLink k =>
@@ -662,7 +691,7 @@ theorem step_ok {Gs prs} {w : World} (h : WorldOk Gs prs w) (fuel : Nat) (op : H
     · rename_i ls hk
       apply set_loader_ok (release_ok h k)
       have hls := h.loaders ls (List.mem_of_getElem? hk)
-      exact ⟨hls.aligned, by intro L hL; simp at hL⟩
+      exact ⟨hls.aligned, (by intro L hL; simp at hL), (by intro _ e _ c hc; simp at hc)⟩
     · exact h
   | update k tid =>
     simp only [World.step]
@@ -697,7 +726,6 @@ theorem step_ok {Gs prs} {w : World} (h : WorldOk Gs prs w) (fuel : Nat) (op : H
       · exact hls
       · split
         · rename_i hL
-          have : ∀ (r : Res), LoaderOk Gs prs { ls with ld := ls.ld } := fun _ => hls
           split
           · exact hls
           · split
@@ -707,15 +735,15 @@ theorem step_ok {Gs prs} {w : World} (h : WorldOk Gs prs w) (fuel : Nat) (op : H
               · split <;> exact hls
         · rename_i g _ _ L hL
           obtain ⟨c, hc, hlk⟩ := hls.link L hL
-          refine ⟨hls.aligned, ?_⟩
+          refine ⟨hls.aligned, ?_, hls.fresh⟩
           intro L' hL'
           simp only [Option.some.injEq] at hL'
           subst hL'
           exact ⟨c, hc, internalFlash_closed (linkOk_closed _ _) L g image ov [] hlk⟩
     · exact h
 
-theorem run_ok {Gs prs} (fuel : Nat) : ∀ (ops : List HOp) (w : World), WorldOk Gs prs w → (∀ op ∈ ops, op.TidOk) →
-    WorldOk Gs prs (World.run fuel w ops).1 := by
+theorem run_ok {rp Gs prs} (fuel : Nat) : ∀ (ops : List HOp) (w : World), WorldOk rp Gs prs w → (∀ op ∈ ops, op.TidOk) →
+    WorldOk rp Gs prs (World.run rp fuel w ops).1 := by
   intro ops
   induction ops with
   | nil => intro w h _; exact h
